@@ -604,6 +604,17 @@ def guard_object_mismatch(fn):
                 and t.comparators[0].attr in ('dimensions', 'variables') and isinstance(t.comparators[0].value, ast.Name) and isinstance(t.left, ast.Name)):
             continue
         kind, gobj, key = t.comparators[0].attr, t.comparators[0].value.id, t.left.id
+        # a presence test that protects a *read* of A.<kind>[K] on the other branch (or in the statements that follow when the body
+        # leaves) is not a "create it if it is missing" guard: what the body adds elsewhere is the fallback for the missing operand
+        wanted = '%s.%s[%s]' % (gobj, kind, key)
+        rest = list(st.orelse)
+        par = getattr(st, '_parent', None)
+        for blk in ('body', 'orelse', 'finalbody'):
+            lst = getattr(par, blk, None)
+            if isinstance(lst, list) and st in lst:
+                rest += lst[lst.index(st) + 1:]
+        if any(isinstance(n, ast.Subscript) and norm(n) == wanted for s2 in rest for n in ast.walk(s2)):
+            continue
         for s2 in st.body:
             for c in ast.walk(s2):
                 if isinstance(c, ast.Call) and isinstance(c.func, ast.Attribute) and isinstance(c.func.value, ast.Name):
